@@ -103,11 +103,27 @@ func run(prop, tier, repo, verif, tags, replayKey string, evidence bool, f rules
 		fmt.Println("ERROR trusted base:", err)
 		return 2
 	}
+	if d := os.Getenv("VERIF_DUMP_REFFUNCS"); d != "" {
+		if err := p.DumpRefFuncs(d); err != nil {
+			fmt.Println("ERROR", err)
+			return 2
+		}
+		fmt.Println("reference function table written to", d)
+		return 0
+	}
+	renames := p.ApplyReference(filepath.Join(verif, "reference_funcs.json"))
 	r := report.NewRun(prop, tier)
 	r.SetStart(t0)
+	for _, rn := range renames {
+		r.Note("renamed function recognised by package, receiver and signature: %s", rn)
+	}
 	r.Stats["packages"] = len(p.Pkgs)
 	r.Stats["functions"] = len(p.Funcs)
-	f(&rules.Ctx{P: p, R: r, Tier: tier, VerifDir: verif})
+	ctx := &rules.Ctx{P: p, R: r, Tier: tier, VerifDir: verif}
+	f(ctx)
+	if d := os.Getenv("VERIF_DUMP_ANCHORS"); d != "" {
+		ctx.DumpAnchors(filepath.Join(d, prop+".json"))
+	}
 	if tier == "thorough" && replayKey == "" {
 		thorough(prop, repo, verif, r, f)
 	}
@@ -178,6 +194,7 @@ func thorough(prop, repo, verif string, base *report.Run, f rules.PropFunc) {
 			rows = append(rows, c.name+": could not be loaded ("+firstLine(err.Error())+") - not analysed")
 			continue
 		}
+		p.ApplyReference(filepath.Join(verif, "reference_funcs.json"))
 		sub := report.NewRun(prop, "thorough")
 		func() {
 			defer func() {
